@@ -1934,6 +1934,40 @@ impl<const N: usize> Subscriptions<N> {
     }
 }
 
+/// Verification hooks: public wrappers around the crate-private persistence API. Add-only.
+#[cfg(all(feature = "verif", feature = "persistent-subscriptions"))]
+impl<const N: usize> Subscriptions<N> {
+    pub fn verif_persist_all<'a, B, S>(
+        &self,
+        buffers: &SubscriptionsBuffers<'a, B, N>,
+        kv: S,
+        buf: &mut [u8],
+    ) -> Result<(), Error>
+    where
+        B: Buffers<IMBuffer> + 'a,
+        S: KvBlobStore,
+    {
+        self.persist_all(buffers, kv, buf)
+    }
+
+    pub fn verif_load_persist<'a, 's, B, S>(
+        &'s self,
+        pool: &'a B,
+        buffers: &'s SubscriptionsBuffers<'a, B, N>,
+        kv: S,
+        buf: &mut [u8],
+        now: Instant,
+        event_numbers_watermark: EventNumber,
+    ) -> Result<(), Error>
+    where
+        'a: 's,
+        B: Buffers<IMBuffer> + 'a,
+        S: KvBlobStore,
+    {
+        self.load_persist(pool, buffers, kv, buf, now, event_numbers_watermark)
+    }
+}
+
 #[cfg(feature = "verif")]
 impl<'a, 's, B, const N: usize> ReportContext<'a, 's, B, N>
 where
